@@ -1,8 +1,16 @@
-"""Generated/Layout.lean: structural facts of injector.rs / verifier.rs the model is parametric in."""
+"""Generated/Layout.lean: structural facts of injector.rs / verifier.rs the model is parametric in.
+
+Every fact is three-valued here: recognised as holding, recognised as NOT holding, or not
+recognised (None).  A fact that is not recognised falls back to the pinned value of
+translate/pinned.json and is reported in `fallback`: for that fact the tie to the source is
+then the correspondence run alone (the runner enlarges its budget and says so in the evidence).
+A fact recognised with a different value is emitted as found, so the proofs that need it break."""
 import os
 import re
 
-from rustlex import fn_body, match_delim, strip_comments
+from rustlex import fn_body, fn_defs, inline_calls, match_delim, strip_comments
+
+KEEP = ("lock", "signature_returns_bool", "drop", "default", "new", "prevent")
 
 
 def read(repo, rel):
@@ -52,34 +60,79 @@ def impl_body(src, header_re):
     return src[i + 1:j]
 
 
-def b(x):
-    return "true" if x else "false"
-
-
-def addb(L, name, v):
-    L.append("def %s : Bool := %s" % (name, b(v)))
-
-
-def before(body, pat_a, pat_b):
-    """True iff pat_a occurs and its first occurrence is before the first occurrence of pat_b"""
+def order(body, pat_a, pat_b):
+    """True: both occur and a's first occurrence precedes b's; False: both occur, other order;
+    None: one of them was not found"""
     ma = re.search(pat_a, body or "")
     mb = re.search(pat_b, body or "")
-    return bool(ma and mb and ma.start() < mb.start())
+    if not ma or not mb:
+        return None
+    return ma.start() < mb.start()
 
 
-def generate(repo):
+def sig_gate_pos(body):
+    """position of a signature gate (`if A != B { .. panic!`, assert_eq!/assert!) or None"""
+    a = r"\(?\s*(?:target\.signature|self\.expected_signature)\s*\)?"
+    pats = [r"if\s*\(?\s*" + a + r"\s*!=\s*" + a + r"\s*\)?\s*\{[^{}]*panic!",
+            r"if\s*!\s*\(\s*" + a + r"\s*==\s*" + a + r"\s*\)\s*\{[^{}]*panic!",
+            r"assert_eq!\s*\(\s*" + a + r"\s*,\s*" + a,
+            r"assert!\s*\(\s*" + a + r"\s*==\s*" + a]
+    best = None
+    for p in pats:
+        for m in re.finditer(p, body):
+            if "target.signature" in m.group(0) and "self.expected_signature" in m.group(0):
+                best = m.start() if best is None else min(best, m.start())
+                break
+    return best
+
+
+def gate_before(body, call_pat):
+    """signature gate precedes the patching call?  (tri-state)"""
+    mc = re.search(call_pat, body or "")
+    if not mc:
+        return None
+    g = sig_gate_pos(body)
+    if g is not None:
+        return g < mc.start()
+    if "expected_signature" not in body:
+        return False          # the patching call is there and nothing looks at the signature
+    return None
+
+
+DROP_STEPS = [
+    # (pattern on whitespace-free text, field, kind)
+    (r"whileletSome\((\w+)\)=self\.guards\.pop\(\)\{(drop\(\1\);?|let_=\1;)?\}", "guards", "newest"),
+    (r"for(\w+)in(self\.guards\.drain\(\.\.\)\.rev\(\)|std::mem::take\(&mutself\.guards\)\.into_iter\(\)\.rev\(\))\{(drop\(\1\);?)?\}", "guards", "newest"),
+    (r"self\.guards\.drain\(\.\.\)\.rev\(\)\.for_each\(drop\);", "guards", "newest"),
+    (r"self\.guards\.clear\(\);", "guards", "oldest"),
+    (r"drop\(std::mem::take\(&mutself\.guards\)\);", "guards", "oldest"),
+    (r"for(\w+)inself\.guards\.drain\(\.\.\)\{(drop\(\1\);?)?\}", "guards", "oldest"),
+    (r"self\.guards\.drain\(\.\.\)\.for_each\(drop\);", "guards", "oldest"),
+    (r"self\.verifiers\.clear\(\);", "verifiers", None),
+    (r"drop\(std::mem::take\(&mutself\.verifiers\)\);", "verifiers", None),
+    (r"self\.verifiers\.drain\(\.\.\)\.for_each\(drop\);", "verifiers", None),
+    (r"for(\w+)inself\.verifiers\.drain\(\.\.\)\{(drop\(\1\);?)?\}", "verifiers", None),
+]
+
+HELPER_EXPECTED = ("letSome(open)=signature.find('(')else{returnfalse;};letmutdepth=0usize;"
+                   "for(i,c)insignature[open..].char_indices(){matchc{'('=>depth+=1,')'=>{depth-=1;"
+                   "ifdepth==0{returnsignature[open+i+1..].trim()==\"->bool\";}}_=>{}}}false")
+
+
+def facts(repo):
+    """name -> (lean type, lean value or None)"""
     inj = read(repo, "interface/injector.rs")
     ver = read(repo, "interface/verifier.rs")
     fp = read(repo, "interface/func_ptr.rs")
-    L = ["/- GENERATED by translate/layout.py from /repo/src — do not edit. -/",
-         "namespace Inj.Generated.Layout", "",
-         "inductive Field where | guards | verifiers | lock | other | unknown deriving Repr, DecidableEq",
-         "inductive DropOrderSrc where | vecFieldDrop | explicitNewestFirst | unknown deriving Repr, DecidableEq",
-         "inductive BoolGateSrc where | endsWithArrowBool | topLevelReturnType | unknown deriving Repr, DecidableEq", ""]
+    defs = fn_defs(inj)
+    F = {}
 
-    fields = struct_fields(inj, "InjectorPP") or []
+    def tb(v):
+        return None if v is None else ("true" if v else "false")
+
+    fields = struct_fields(inj, "InjectorPP")
     fmap = []
-    for name, ty in fields:
+    for name, ty in fields or []:
         if "PatchGuard" in ty:
             fmap.append("Field.guards")
         elif "CallCountVerifier" in ty:
@@ -88,105 +141,174 @@ def generate(repo):
             fmap.append("Field.lock")
         else:
             fmap.append("Field.other")
-    L.append(f"/-- fields of `InjectorPP` in declaration order (= drop order) -/\ndef injectorFields : List Field := [{', '.join(fmap)}]")
-    lock_field = next((n for n, t in fields if "MutexGuard" in t), None)
+    F["injectorFields"] = ("List Field", "[" + ", ".join(fmap) + "]" if fields else None)
+    lock_field = next((n for n, t in fields or [] if "MutexGuard" in t), None)
     pfields = struct_fields(inj, "Preventer") or []
     plock_field = next((n for n, t in pfields if "MutexGuard" in t), None)
 
-    # Drop impl for InjectorPP: its body as a sequence of recognised statements
+    # ---- Drop for InjectorPP
     dbody = impl_body(inj, r"impl\s+Drop\s+for\s+InjectorPP\s*\{")
-    body_steps = []
-    pop_loop = False
+    steps, kinds, unknown = [], [], False
     if dbody is None:
-        order = "DropOrderSrc.vecFieldDrop"
+        F["guardDropOrder"] = ("DropOrderSrc", "DropOrderSrc.vecFieldDrop")
+        F["injectorHasDropImpl"] = ("Bool", "false")
+        F["injectorDropBody"] = ("List Field", "[]")
     else:
-        fb = fn_body(dbody, "drop") or ""
-        norm = "".join(fb.split())
-        pats = [
-            (r"whileletSome\((\w+)\)=self\.guards\.pop\(\)\{(drop\(\1\);?)?\}", "Field.guards", True),
-            (r"forgin(self\.guards\.drain\(\.\.\)\.rev\(\)|std::mem::take\(&mutself\.guards\)\.into_iter\(\)\.rev\(\))\{(drop\(g\);?)?\}", "Field.guards", True),
-            (r"self\.verifiers\.clear\(\);", "Field.verifiers", False),
-            (r"drop\(std::mem::take\(&mutself\.verifiers\)\);", "Field.verifiers", False),
-        ]
-        rest = norm
+        fb = inline_calls(fn_body(dbody, "drop") or "", defs, keep=KEEP)
+        rest = "".join(fb.split())
+        rest = re.sub(r"^\{|\}$", "", rest) if rest.startswith("{{") else rest
         while rest:
-            for (pat, fld, is_pop) in pats:
+            if rest[0] in "{};":            # block braces left by inlining
+                rest = rest[1:]
+                continue
+            for (pat, fld, kind) in DROP_STEPS:
                 m = re.match(pat, rest)
                 if m:
-                    body_steps.append(fld)
-                    pop_loop = pop_loop or is_pop
+                    steps.append("Field." + fld)
+                    if fld == "guards":
+                        kinds.append(kind)
                     rest = rest[m.end():]
                     break
             else:
-                body_steps.append("Field.unknown")
+                unknown = True
                 break
-        if pop_loop and "Field.unknown" not in body_steps:
-            order = "DropOrderSrc.explicitNewestFirst"
+        if unknown:
+            F["guardDropOrder"] = ("DropOrderSrc", None)
+            F["injectorDropBody"] = ("List Field", None)
         else:
-            order = "DropOrderSrc.unknown"
-    L.append(f"def guardDropOrder : DropOrderSrc := {order}")
-    L.append(f"def injectorHasDropImpl : Bool := {b(dbody is not None)}")
-    L.append(f"/-- statements of `Drop::drop` for `InjectorPP`, in order, as recognised -/\ndef injectorDropBody : List Field := [{', '.join(body_steps)}]")
+            if not kinds:
+                o = "DropOrderSrc.vecFieldDrop"
+            elif kinds[0] == "newest":
+                o = "DropOrderSrc.explicitNewestFirst"
+            else:
+                o = "DropOrderSrc.vecFieldDrop"
+            F["guardDropOrder"] = ("DropOrderSrc", o)
+            F["injectorDropBody"] = ("List Field", "[" + ", ".join(steps) + "]")
+        F["injectorHasDropImpl"] = ("Bool", "true")
 
+    # ---- the process-wide lock
     statics = re.findall(r"\bstatic\s+(\w+)\s*:\s*NoPoisonMutex", inj)
-    newb = fn_body(inj, "new") if False else None
-    # `new` and `prevent` inside `impl InjectorPP`
     ib = impl_body(inj, r"impl\s+InjectorPP\s*\{") or ""
-    newb = fn_body(ib, "new") or ""
-    prevb = fn_body(ib, "prevent") or ""
+    newb = inline_calls(fn_body(ib, "new") or "", defs, keep=KEEP)
+    prevb = inline_calls(fn_body(ib, "prevent") or "", defs, keep=KEEP)
 
-    def takes_lock(body, field, ctor):
-        m = re.search(r"let\s+(\w+)\s*=\s*(\w+)\.lock\(\)\s*;", body)
-        if not m or field is None:
-            return False, None
-        var, st = m.group(1), m.group(2)
-        stored = re.search(r"\b" + ctor + r"\s*\{[^}]*\b" + re.escape(field) + r"\s*:\s*" + re.escape(var) + r"\b", body, re.S)
-        return bool(stored), st
-    n_ok, n_st = takes_lock(newb, lock_field, "Self")
-    p_ok, p_st = takes_lock(prevb, plock_field, "Preventer")
-    addb(L, "newTakesLock", n_ok)
-    addb(L, "preventTakesLock", p_ok)
-    addb(L, "sameLockStatic", n_ok and p_ok and n_st == p_st and statics.count(n_st) == 1)
-    addb(L, "preventerHoldsGuard", plock_field is not None)
+    def takes_lock(body, field, ctors):
+        if field is None or not body:
+            return None, None
+        for m in re.finditer(r"let\s+(\w+)\s*=\s*(\w+)\.lock\(\)\s*;", body):
+            var, st = m.group(1), m.group(2)
+            if re.search(r"\b(?:" + ctors + r")\s*\{[^}]*\b" + re.escape(field) + r"\s*:\s*" + re.escape(var) + r"\b", body, re.S) or \
+               (var == field and re.search(r"\b(?:" + ctors + r")\s*\{[^}]*\b" + re.escape(field) + r"\s*[,}]", body, re.S)):
+                return True, st
+        m = re.search(r"\b(?:" + ctors + r")\s*\{[^}]*\b" + re.escape(field) + r"\s*:\s*(\w+)\.lock\(\)", body, re.S)
+        if m:
+            return True, m.group(1)
+        return None, None
+    n_ok, n_st = takes_lock(newb, lock_field, "Self|InjectorPP")
+    p_ok, p_st = takes_lock(prevb, plock_field, "Self|Preventer")
+    F["newTakesLock"] = ("Bool", tb(n_ok))
+    F["preventTakesLock"] = ("Bool", tb(p_ok))
+    same = None
+    if n_ok and p_ok:
+        same = (n_st == p_st and statics.count(n_st) == 1)
+    F["sameLockStatic"] = ("Bool", tb(same))
+    F["preventerHoldsGuard"] = ("Bool", tb(True if plock_field is not None else (False if pfields else None)))
     lb = impl_body(inj, r"impl\s*<\s*T\s*>\s*NoPoisonMutex\s*<\s*T\s*>\s*\{") or ""
     lockb = "".join((fn_body(lb, "lock") or "").split())
-    addb(L, "poisonRecovered", bool(re.search(r'Err\((\w+)\)=>\{?\1\.into_inner\(\)', lockb)) and 'Ok(guard)=>guard' in lockb)
+    pr = None
+    if (re.search(r"Err\((\w+)\)=>\{?\1\.into_inner\(\)", lockb) and re.search(r"Ok\((\w+)\)=>\1", lockb)) or \
+       re.search(r"\.lock\(\)\.unwrap_or_else\((std::sync::)?PoisonError::into_inner\)", lockb) or \
+       re.search(r"\.lock\(\)\.unwrap_or_else\(\|(\w+)\|\1\.into_inner\(\)\)", lockb):
+        pr = True
+    elif re.search(r"\.lock\(\)\.(unwrap\(\)|expect\()", lockb):
+        pr = False
+    F["poisonRecovered"] = ("Bool", tb(pr))
 
+    # ---- CallCountVerifier::drop
     vb = fn_body(impl_body(ver, r"impl\s+Drop\s+for\s+CallCountVerifier\s*\{") or "", "drop") or ""
     vnorm = "".join(vb.split())
-    addb(L, "verifierChecksPanicking", before(vnorm, r'ifstd::thread::panicking\(\)\{return;\}', r'panic!\('))
-    addb(L, "verifierComparesNe", 'ifcall_times!=*expected{' in vnorm)
-    addb(L, "verifierLoadsCounter", 'letcall_times=counter.load(' in vnorm)
+    cp = order(vnorm, r"if(std::)?(thread::)?panicking\(\)\{return;?\}", r"panic!\(")
+    if cp is None and "panic!(" in vnorm and "panicking()" not in vnorm:
+        cp = False
+    F["verifierChecksPanicking"] = ("Bool", tb(cp))
+    ne = None
+    if re.search(r"if\*?\w+!=\*?expected\{", vnorm) or re.search(r"if\*?expected!=\*?\w+\{", vnorm) or \
+       re.search(r"if\*?\w+==\*?expected\{return;?\}", vnorm) or re.search(r"if\*?expected==\*?\w+\{return;?\}", vnorm):
+        ne = True
+    elif re.search(r"if\*?\w+[<>]=?\*?expected\{", vnorm):
+        ne = False
+    F["verifierComparesNe"] = ("Bool", tb(ne))
+    F["verifierLoadsCounter"] = ("Bool", tb(True if re.search(r"counter\.load\(", vnorm) else None))
 
-    wb = impl_body(inj, r"impl\s+WhenCalledBuilder\s*<\s*'_\s*>\s*\{") or ""
-    wab = impl_body(inj, r"impl\s+WhenCalledBuilderAsync\s*<\s*'_\s*>\s*\{") or ""
-    raw = fn_body(wb, "will_execute_raw") or ""
-    we = fn_body(wb, "will_execute") or ""
-    wrb = fn_body(wb, "will_return_boolean") or ""
-    wra = fn_body(wab, "will_return_async") or ""
-    gate = r"if\s+target\.signature\s*!=\s*self\.expected_signature\s*\{\s*panic!"
-    addb(L, "rawGateBeforeGuard", before(raw, gate, r'will_execute_guard\('))
-    addb(L, "asyncGateBeforeGuard", before(wra, gate, r'will_execute_guard\('))
+    # ---- gates of the builders
+    wb = impl_body(inj, r"impl\s*(?:<\s*'\w+\s*>)?\s+WhenCalledBuilder\s*<\s*'\w+\s*>\s*\{") or ""
+    wab = impl_body(inj, r"impl\s*(?:<\s*'\w+\s*>)?\s+WhenCalledBuilderAsync\s*<\s*'\w+\s*>\s*\{") or ""
+    raw = inline_calls(fn_body(wb, "will_execute_raw") or "", defs, keep=KEEP)
+    we = inline_calls(fn_body(wb, "will_execute") or "", defs, keep=KEEP + ("will_execute_raw",))
+    wrb = inline_calls(fn_body(wb, "will_return_boolean") or "", defs, keep=KEEP)
+    wra = inline_calls(fn_body(wab, "will_return_async") or "", defs, keep=KEEP)
+    F["rawGateBeforeGuard"] = ("Bool", tb(gate_before(raw, r"will_execute_guard\(")))
+    F["asyncGateBeforeGuard"] = ("Bool", tb(gate_before(wra, r"will_execute_guard\(")))
     if re.search(r"if\s*!\s*self\.expected_signature\.trim\(\)\.ends_with\(\s*\"-> bool\"\s*\)\s*\{\s*panic!", wrb):
         bg = "BoolGateSrc.endsWithArrowBool"
     elif re.search(r"if\s*!\s*signature_returns_bool\(\s*self\.expected_signature\s*\)\s*\{\s*panic!", wrb):
-        # the helper must be the depth-counting scan the model (Sig.boolGateTopLevel) follows
         hb = "".join((fn_body(inj, "signature_returns_bool") or "").split())
-        expected = ("letSome(open)=signature.find('(')else{returnfalse;};letmutdepth=0usize;"
-                    "for(i,c)insignature[open..].char_indices(){matchc{'('=>depth+=1,')'=>{depth-=1;"
-                    "ifdepth==0{returnsignature[open+i+1..].trim()==\"->bool\";}}_=>{}}}false")
-        bg = "BoolGateSrc.topLevelReturnType" if hb == expected else "BoolGateSrc.unknown"
+        bg = "BoolGateSrc.topLevelReturnType" if hb == HELPER_EXPECTED else None
     else:
-        bg = "BoolGateSrc.unknown"
-    L.append(f"def boolGate : BoolGateSrc := {bg}")
-    addb(L, "boolGateBeforeGuard", before(wrb, r'panic!', r'will_return_boolean_guard\('))
-    addb(L, "verifierPushedBeforeGate", before(we, r'self\.lib\.verifiers\.push\(', r'self\.will_execute_raw\('))
-    addb(L, "willExecuteGoesThroughRaw", bool(re.search(r'self\.will_execute_raw\(\s*fake_func\s*\)', we)))
-    reset = before(we, r"counter\.store\(\s*0\s*,", r"self\.will_execute_raw\(")
-    addb(L, "counterResetOnInstall", reset)
-    # unchecked entry points carry the empty signature
-    addb(L, "uncheckedCarriesEmptySig", len(re.findall(r'expected_signature\s*:\s*\"\"', inj)) >= 2)
+        bg = None
+    F["boolGate"] = ("BoolGateSrc", bg)
+    F["boolGateBeforeGuard"] = ("Bool", tb(order(wrb, r"panic!", r"will_return_boolean_guard\(")))
+    F["verifierPushedBeforeGate"] = ("Bool", tb(order(we, r"self\.lib\.verifiers\.push\(", r"self\.will_execute_raw\(")))
+    thr = None
+    if re.search(r"self\.will_execute_raw\(\s*\w+\s*\)", we):
+        thr = True
+    elif re.search(r"will_execute_guard\(", we):
+        thr = False
+    F["willExecuteGoesThroughRaw"] = ("Bool", tb(thr))
+    reset = order(we, r"\.store\(\s*0\s*,", r"self\.will_execute_raw\(")
+    if reset is None and re.search(r"self\.will_execute_raw\(", we) and ".store(" not in we and "swap(" not in we:
+        reset = False
+    F["counterResetOnInstall"] = ("Bool", tb(reset))
+    F["uncheckedCarriesEmptySig"] = ("Bool", tb(True if len(re.findall(r'expected_signature\s*:\s*\"\"', inj)) >= 2 else None))
     nb = fn_body(fp, "new") or ""
-    addb(L, "funcPtrRejectsNull", bool(re.search(r'NonNull::new\(\s*p\s*\)\.expect\(', nb)))
-    L += ["", "end Inj.Generated.Layout", ""]
+    rn = None
+    if re.search(r"NonNull::new\(\s*\w+\s*\)\s*\.expect\(", nb) or re.search(r"NonNull::new\(\s*\w+\s*\)\s*\.unwrap\(\)", nb):
+        rn = True
+    elif "new_unchecked" in nb:
+        rn = False
+    F["funcPtrRejectsNull"] = ("Bool", tb(rn))
+    return F
+
+
+ORDER = ["injectorFields", "guardDropOrder", "injectorHasDropImpl", "injectorDropBody", "newTakesLock",
+         "preventTakesLock", "sameLockStatic", "preventerHoldsGuard", "poisonRecovered", "verifierChecksPanicking",
+         "verifierComparesNe", "verifierLoadsCounter", "rawGateBeforeGuard", "asyncGateBeforeGuard", "boolGate",
+         "boolGateBeforeGuard", "verifierPushedBeforeGate", "willExecuteGoesThroughRaw", "counterResetOnInstall",
+         "uncheckedCarriesEmptySig", "funcPtrRejectsNull"]
+
+DOC = {"injectorFields": "fields of `InjectorPP` in declaration order (= drop order)",
+       "injectorDropBody": "statements of `Drop::drop` for `InjectorPP`, in order, as recognised"}
+
+
+def generate(repo, pinned, report):
+    F = facts(repo)
+    L = ["/- GENERATED by translate/layout.py from /repo/src — do not edit. -/",
+         "namespace Inj.Generated.Layout", "",
+         "inductive Field where | guards | verifiers | lock | other | unknown deriving Repr, DecidableEq",
+         "inductive DropOrderSrc where | vecFieldDrop | explicitNewestFirst | unknown deriving Repr, DecidableEq",
+         "inductive BoolGateSrc where | endsWithArrowBool | topLevelReturnType | unknown deriving Repr, DecidableEq", ""]
+    fallback = []
+    for name in ORDER:
+        ty, val = F[name]
+        if val is None:
+            fallback.append(name)
+            val = pinned[name]["value"]
+        if name in DOC:
+            L.append("/-- " + DOC[name] + " -/")
+        L.append(f"def {name} : {ty} := {val}")
+    L += ["", "/-- facts the translator did not recognise in the source as written: they carry the pinned",
+          "    value and are tied to the code by the correspondence runs only -/",
+          "def fallback : List String := [" + ", ".join('"%s"' % n for n in fallback) + "]",
+          "", "end Inj.Generated.Layout", ""]
+    report["Layout"] = {"recognised": [n for n in ORDER if n not in fallback], "fallback": fallback}
     return "\n".join(L)
